@@ -487,6 +487,9 @@ def c05(ck):
                                   "--maxbytes", 400000 if thorough else 20000],
                      own=("C05:",), gen_cfg="Gen_Hdr_thorough.cfg" if thorough else "Gen_Hdr_quick.cfg")
     pkg_stats(ck, events)
+    # the specification's own round trip and the non-vacuity of the loading rules (incl. dribble headers)
+    ck.add_tlc(vlib.mc("MC_HeaderFormat", "MC_HeaderFormat_thorough.cfg" if thorough else "MC_HeaderFormat_quick.cfg",
+                       ck.scratch, workers=8 if thorough else 4, timeout=1800))
     with_gets = [e for e in events if e.get("gets")]
     ck.evaluations = sum(len(e["gets"]) for e in with_gets)
     ck.nontrivial = len({(g["acc"], g.get("tag"), json.dumps(g["res"])[:200]) for e in with_gets for g in e["gets"]})
@@ -511,6 +514,9 @@ def c09(ck):
                                   "--maxbytes", 400000 if thorough else 65536],
                      own=("C09:",))
     pkg_stats(ck, events)
+    # the rules themselves, on headers built inside the model: encoder output passes, each named malformation is refused
+    ck.add_tlc(vlib.mc("MC_HeaderFormat", "MC_HeaderFormat_thorough.cfg" if thorough else "MC_HeaderFormat_quick.cfg",
+                       ck.scratch, workers=8 if thorough else 4, timeout=1800))
     em = [e for e in events if e.get("emitted")]
     ck.evaluations = len(em)
     ck.nontrivial = len({(e["off"]["hdr"], e["off"]["payload"]) for e in em})
@@ -776,8 +782,9 @@ def c10(ck):
                     sign_steps=len({(e["pkg"], e["path"]) for e in steps if e["op"] == "sign"}))
     ck.samples += [steps[0], steps[len(steps) // 2]]
     ck.rule = ("all operation sequences of the maximal length (3 quick, 4 thorough; every shorter history is a prefix) "
-               "over {sign with RSA-4096 / protected RSA-3072 / Ed25519 / ECDSA-P256, clear, write+re-parse} from two "
-               "built packages (without and with files) and two foreign assets; after every step all four real "
+               "over {sign with RSA-4096 / protected RSA-3072 / Ed25519 / ECDSA-P256, clear, write+re-parse} from three "
+               "built packages (without files, with files, with a main header of several tens of KiB) and four foreign "
+               "assets (main headers from 1 KiB to 147 KiB); after every step all four real "
                "verifiers, signature_key_ids, verify_digests and byte-identity of header and payload are observed; "
                "non-trivial = distinct prefix-tree nodes")
     ck.assumptions.append("expected key ids are the primary key ids of the public key files, read with the pgp crate directly")
@@ -1049,10 +1056,11 @@ def run_files(ck, binary, own, extra_args, gen=True, tag="c07"):
         log(f"  rejects belonging to other properties: {other}")
     ck.extra["panics_seen_belonging_to_C04"] = ck.extra.get("panics_seen_belonging_to_C04", 0) + len(panics)
     # a package the library itself emitted whose payload the harness cannot even decompress / scan is not a
-    # well-formed archive (C09) and cannot be iterated faithfully (C07)
+    # well-formed archive (C09), cannot be iterated faithfully (C07), and holds no locatable content for the
+    # recorded file digests to be the digests of (C08)
     for e in events:
         if e["id"] in by_id and e["event"] == "Undecodable" and origin_kind(e) in ("built", "random", "largefile"):
-            if any(o.startswith(("C07", "C09")) for o in own):
+            if any(o.startswith(("C07", "C08", "C09")) for o in own):
                 ck.violation(f"{own[0]}emitted archive undecodable ({e.get('what')}):{e.get('origin')}", "Undecodable", e)
     return [e for e in events if e["id"] in by_id and e["event"] == "Files"]
 
